@@ -59,6 +59,8 @@ MEMBERS = [
      ("empty_doc{s}", [])),
     ("    @property\n    def blank_prop{s}(self) -> int:\n        ''' '''\n        return 2\n",
      ("blank_prop{s}", [])),
+    ("    def maybe_num{s}(self, n: Optional[int] = None, label: Union[str, None] = None) -> str:\n        '''typing.Optional / typing.Union spellings.'''\n        return f'{{n}}-{{label}}'\n",
+     ("maybe_num{s}", [("n", "opt"), ("label", "opt")])),
     ("    def tag_it{s}(self, *, label: str, times: int = 1) -> str:\n        '''Required keyword-only parameter.'''\n        return label * times\n",
      ("tag_it{s}", [("label", "pos"), ("times", "opt")])),
     ("    def shift_by{s}(self, amount: int, /, times: int = 1) -> int:\n        '''Positional-only parameter.'''\n        return amount * times\n",
@@ -98,7 +100,7 @@ def build_class(case: dict):
     if "members" not in case:
         return base, table, private, docs
     s = case.get("suffix", "")
-    src = ("from __future__ import annotations\n" if case.get("postponed") else "") + "class Mid(Base):\n    '''Intermediate.'''\n    pass\n\n"
+    src = ("from __future__ import annotations\n" if case.get("postponed") else "") + "from typing import Optional, Union\nclass Mid(Base):\n    '''Intermediate.'''\n    pass\n\n"
     parent = "Mid" if case.get("depth", 1) == 2 else "Base"
     src += f"class GenPool({parent}):\n    '''Generated pool class.'''\n"
     for i in case["members"]:
@@ -138,7 +140,7 @@ class C16Engine(Engine):
             "subclass, or width < 40 or > 200. Distinct = case hash.")
     assumptions = ["the session is driven in-process through a real asyncio.StreamReader and a recording writer (vt/ctl/harness.py)",
                    "API table written from the documentation, independent of inspect.getmembers"]
-    bounds = {"widths": "1..1000", "generated members": "<=4 of 20 templates", "subclass depth": "<=2"}
+    bounds = {"widths": "1..1000", "generated members": "<=4 of 21 templates", "subclass depth": "<=2"}
 
     def strategies(self, tier: str):
         return [("default", st.binary(min_size=NB, max_size=NB).map(decode), 1200 if tier == "quick" else 30000)]
@@ -254,7 +256,7 @@ class C16Engine(Engine):
             calls = {"extra_count": ("extra-count{s} 4 --label z", "4z"), "toggle_thing": ("toggle-thing{s} --fast", "True"),
                      "sum_all": ("sum-all{s} 1 2 3", "6"), "wait_a_bit": ("wait-a-bit{s} --rounds 3", "3"), "extra_info": ("extra-info{s}", "info"),
                      "knob": ("knob{s} 5", "ok"), "scale": ("scale{s} 21 --offset 1", "43"), "filter": ("filter{s}- --pattern q", "q"),
-                     "deep__scan": ("deep--scan{s} 2", "2"), "shift_by": ("shift-by{s} 3 --times 2", "6"), "tag_it": ("tag-it{s} ab --times 2", "abab"), "ratio_of": ("ratio-of{s} 1 --whole 4", "0.25")}
+                     "deep__scan": ("deep--scan{s} 2", "2"), "shift_by": ("shift-by{s} 3 --times 2", "6"), "tag_it": ("tag-it{s} ab --times 2", "abab"), "maybe_num": ("maybe-num{s} --n 5 --label q", "5-q"), "ratio_of": ("ratio-of{s} 1 --whole 4", "0.25")}
             for name in sorted(table):
                 base = name[: len(name) - len(sfx)] if sfx and name.endswith(sfx) else name
                 key = base.rstrip("_") if base.rstrip("_") in calls else base
